@@ -22,6 +22,7 @@ mod refsem;
 mod rng;
 mod selftest;
 mod texts;
+mod props_idioms;
 
 use serde_json::{json, Value};
 use std::io::{BufRead, Write};
@@ -77,6 +78,30 @@ pub fn run_property(c: &mut ctx::Ctx) -> bool {
     if let Some((mon, ops)) = own {
         if !c.small {
             props_c17::semantic_key_histories(c, mon, ops);
+            // operands colliding under a weak key (32 bits of a common hash, a byte sum, the ends), back to back
+            if matches!(c.pid.as_str(), "C07" | "C09" | "C10" | "C11" | "C12" | "C15" | "C16") {
+                props_c17::weak_key_histories(c, mon, ops);
+            }
+        }
+    }
+    // everyday idioms (folds, per-row expressions, switch ladders, annotated objects) x hostile values
+    if !c.small {
+        let kinds: Option<(&str, &[&str])> = match c.pid.as_str() {
+            "C02" => Some(("c02.model", &["annotations"])),
+            "C04" => Some(("c04.model", &["fold", "rows"])),
+            "C05" => Some(("c05.model", &["switch"])),
+            "C06" => Some(("c06.model", &["rows", "switch"])),
+            "C07" | "C08" | "C09" => Some(("", &["switch"])),
+            "C10" => Some(("c10.model", &["fold"])),
+            "C11" | "C12" => Some(("", &["rows"])),
+            "C13" => Some(("c13.model", &["fold", "rows"])),
+            "C14" => Some(("c14.model", &["rows"])),
+            "C15" | "C16" => Some(("", &["fold"])),
+            _ => None,
+        };
+        if let Some((mon, kinds)) = kinds {
+            let mon = if mon.is_empty() { format!("{}.idioms", c.pid.to_lowercase()) } else { mon.to_string() };
+            props_idioms::idioms(c, &mon, kinds);
         }
     }
     // ... and a sample of its own judged calls again, from 8 threads at once
